@@ -333,6 +333,8 @@ func (fc *FnCtx) evalBinary(st *State, x *ast.BinaryExpr) Val {
 			} else if bs, ok := b.(VStr); ok {
 				r = fc.seqEq(fc.toSeq(st, a), bs)
 			} else {
+				fc.materializeStruct(a, 0)
+				fc.materializeStruct(b, 0)
 				r = valEq(a, b)
 			}
 		}
